@@ -153,6 +153,10 @@ type world struct {
 	rescanLost   map[string]bool // links whose last per-interface route listing failed (cleared by the next successful listing)
 	felixDeleted map[string]delRec // routes Felix itself deleted and has not re-programmed or re-listed since
 	flushed      map[string]delRec // Felix-held routes the kernel flushed with their link, not re-programmed / fully re-listed since
+	// of those: routes that were NOT the wanted route on their link when Felix
+	// successfully rescanned that link after the flush (known finding: the
+	// per-interface rescan does not drop them from Felix's picture of the kernel)
+	flushedUnwantedAtRescan map[string]delRec
 	seenBy       map[int]time.Time
 	downSince    map[string]bool // iface got a "down" notification since the last Apply
 
@@ -536,7 +540,7 @@ func (n *nlWrap) RouteListFilteredIter(family int, filter *netlink.Route, mask u
 		w.eintrBurst--
 		kind = "route_list_eintr"
 		w.r.Fault(kind)
-	} else if w.fault("route_list") {
+	} else if w.fault("route_list") || (!full && w.fault("iface_route_list")) {
 		kind = "route_list"
 	} else if w.fault("route_list_eintr") {
 		kind = "route_list_eintr"
@@ -565,12 +569,31 @@ func (n *nlWrap) RouteListFilteredIter(family int, filter *netlink.Route, mask u
 		w.rescanLost = map[string]bool{}
 		w.felixDeleted = map[string]delRec{}
 		w.flushed = map[string]delRec{}
+		w.flushedUnwantedAtRescan = map[string]delRec{}
 		w.r.Probe("full_listing_ok")
 	}
 	if !full && filter != nil {
 		if name := w.nameOfIdx(filter.LinkIndex); name != "" {
 			if err == nil {
 				delete(w.rescanLost, name)
+				exp := w.expected()
+				for k, d := range w.flushed {
+					if d.oif != filter.LinkIndex {
+						continue
+					}
+					wanted := false
+					if e := exp[k]; e != nil {
+						for _, a := range e.acceptable {
+							if a == d.canon {
+								wanted = true
+							}
+						}
+					}
+					delete(w.flushed, k)
+					if !wanted {
+						w.flushedUnwantedAtRescan[k] = d
+					}
+				}
 				for k, d := range w.felixDeleted {
 					if d.oif == filter.LinkIndex {
 						delete(w.felixDeleted, k)
@@ -651,6 +674,7 @@ func (n *nlWrap) routeReplace(rt *netlink.Route) error {
 	if err == nil {
 		delete(w.felixDeleted, key)
 		delete(w.flushed, key)
+		delete(w.flushedUnwantedAtRescan, key)
 	}
 	return err
 }
@@ -727,6 +751,7 @@ func (w *world) flushLink(idx int) {
 			if w.owned(&rt) {
 				w.conflictKeys[k] = true
 				w.flushed[k] = delRec{canon(&rt), rt.LinkIndex}
+				delete(w.flushedUnwantedAtRescan, k)
 			}
 			delete(w.dp.RouteKeyToRoute, k)
 			w.r.Logf("  kernel flushed %s", canon(&rt))
@@ -780,7 +805,24 @@ func (w *world) linkOp(label string) string {
 	if w.focusDev != "" && w.focusDev != ifNone && w.pFocus > 0 && w.r.Src.Chance(w.pFocus, label+"_focus") {
 		name = w.focusDev
 	} else {
-		name = w.devices[w.r.Src.Intn(len(w.devices), label+"_dev")]
+		// links that currently carry Felix-owned routes are the interesting ones to disturb
+		var busy []string
+		for _, d := range w.devices {
+			if l := w.link(d); l != nil {
+				for _, k := range w.routeKeys() {
+					rt := w.dp.RouteKeyToRoute[k]
+					if rt.LinkIndex == l.LinkAttrs.Index && w.owned(&rt) {
+						busy = append(busy, d)
+						break
+					}
+				}
+			}
+		}
+		if len(busy) > 0 && w.r.Src.Chance(500, label+"_busy") {
+			name = busy[w.r.Src.Intn(len(busy), label+"_busy_dev")]
+		} else {
+			name = w.devices[w.r.Src.Intn(len(w.devices), label+"_dev")]
+		}
 	}
 	w.focusDev = name
 	if w.link(name) == nil {
@@ -788,7 +830,7 @@ func (w *world) linkOp(label string) string {
 		w.kAdd(name, up)
 		return "link add " + name
 	}
-	switch w.r.Src.Weighted([]int{5, 3, 3, 3}, label+"_kind") {
+	switch w.r.Src.Weighted([]int{5, 2, 2, 6}, label+"_kind") {
 	case 3: // bounce: down and straight up again
 		if !w.linkUp(name) {
 			w.kSet(name, true, false)
@@ -1221,11 +1263,12 @@ func (w *world) classify(base, k string, acceptable []string) string {
 			}
 		}
 	}
-	if d, ok := w.flushed[k]; ok && base == "desired_route_missing" {
+	if d, ok := w.flushedUnwantedAtRescan[k]; ok && base == "desired_route_missing" {
 		for _, a := range acceptable {
 			if a == d.canon {
-				// the kernel flushed this route with its link, Felix was told about
-				// the flap, and the very same route is wanted (again)
+				// the kernel flushed this route with its link; when Felix rescanned the
+				// link the route was not the wanted one there; now the very same
+				// route is wanted again and Felix believes it never went away
 				return "flushed_route_still_tracked"
 			}
 		}
@@ -1317,7 +1360,7 @@ func cidrs(v6 bool, n int) (pool, foreign []ip.CIDR, gws []string) {
 
 var faultKinds = []string{
 	"link_list", "link_list_eintr", "link_by_name", "link_by_name_lie_notfound",
-	"route_list", "route_list_eintr", "route_list_wrapped_eintr",
+	"route_list", "iface_route_list", "route_list_eintr", "route_list_wrapped_eintr",
 	"route_replace", "route_replace_after_own_delete", "route_del", "neigh_set",
 	"new_netlink", "set_socket_timeout", "set_strict",
 }
@@ -1331,7 +1374,7 @@ func run(r *core.R) {
 		"full_listing_ok", "iface_listing_ok", "iface_listing_failed", "kernel_change_during_apply", "start_state_stale_owned_routes",
 		"start_state_foreign_routes", "sut_used_closed_netlink_handle", "converged_after_1", "converged_after_2", "converged_after_3", "conntrack_cleanup_called", "ipv6_run")
 
-	w := &world{r: r, desired: map[int]map[string]map[string]routetable.Target{}, conflictKeys: map[string]bool{}, rescanLost: map[string]bool{}, felixDeleted: map[string]delRec{}, flushed: map[string]delRec{}, staleKeys: map[string]bool{}, staleIfaces: map[string]bool{},
+	w := &world{r: r, desired: map[int]map[string]map[string]routetable.Target{}, conflictKeys: map[string]bool{}, rescanLost: map[string]bool{}, felixDeleted: map[string]delRec{}, flushed: map[string]delRec{}, flushedUnwantedAtRescan: map[string]delRec{}, staleKeys: map[string]bool{}, staleIfaces: map[string]bool{},
 		replaceStuck: map[string]bool{}, seenBy: map[int]time.Time{}, downSince: map[string]bool{}, rate: map[string]int{}, staleAll: true, nextIdx: 2}
 
 	// ---- swarm configuration
@@ -1396,10 +1439,17 @@ func run(r *core.R) {
 			if k == "route_replace_after_own_delete" {
 				pOn = 850
 			}
+			if k == "iface_route_list" {
+				pOn = 600
+			}
 			if r.Src.Chance(pOn, "cfg_fault_on_"+k) {
 				w.rate[k] = r.Src.Range(20, 250, "cfg_fault_rate_"+k)
 				if k == "route_replace_after_own_delete" {
 					w.rate[k] = r.Src.Range(200, 700, "cfg_fault_rate_inflight")
+				}
+				if k == "iface_route_list" {
+					// the OIF-filtered dump that follows a link flap is the call with in-flight state
+					w.rate[k] = r.Src.Range(100, 500, "cfg_fault_rate_iface_list")
 				}
 				enabled++
 			}
